@@ -236,7 +236,20 @@ func (s *Supervisor) RunCheck(secondsOverride int) int {
 			fmt.Println("infrastructure trouble: witness", k.Witness, err)
 			return 2
 		}
-		ok, _, err := s.ReplayOne(rf)
+		rs := s
+		if rf.Engine == "F" {
+			// recorded against the instrumented build: the tape only means something there
+			fbin := os.Getenv("VERIF_F_BIN")
+			if st, err := os.Stat(fbin); fbin == "" || err != nil || st.IsDir() {
+				fmt.Printf("witness of finding %s needs the Engine F build, which is not available: skipped\n", k.ID)
+				continue
+			}
+			cp := *s
+			cp.Self = fbin
+			cp.ExtraEnv = []string{"VERIF_ENGINE_F=1"}
+			rs = &cp
+		}
+		ok, _, err := rs.ReplayOne(rf)
 		if err != nil {
 			fmt.Println("infrastructure trouble: witness", k.Witness, err)
 			return 2
@@ -514,10 +527,10 @@ func (s *Supervisor) writeEvidence(o *Outcome, violations int, knownLines []stri
 		"known_findings_seen": knownLines,
 		"engine_f": map[string]interface{}{"runs": o.FRuns, "scheduling_steps": o.FSteps, "distinct_schedules": o.FSchedules, "wall_s": o.FWall.Seconds(), "note": o.FNote,
 			"measure": "distinct 64-bit hashes of the sequence of resumed scheduling sites (file:line of the statement or lock about to execute) over the runs of the Engine F phase"},
-		"confirmations":       o.Confirmations,
+		"confirmations":            o.Confirmations,
 		"unconfirmed_observations": o.Unconfirmed,
-		"repo_tree":           RepoTreeID(),
-		"exhaustive":          false,
+		"repo_tree":                RepoTreeID(),
+		"exhaustive":               false,
 	}
 	ev := map[string]interface{}{
 		"property_id": p.ID,
